@@ -763,7 +763,22 @@ func ExpandCond(v ssa.Value) (ssa.Value, func()) {
 		return v, noop
 	}
 	cal := cl.Call.StaticCallee()
-	if cal == nil || !helperOK(cal) || cal.Signature.Results().Len() != 1 {
+	if cal == nil && !cl.Call.IsInvoke() {
+		// a predicate handed in as an argument (`collect(func(e) bool {…})` … `if keep(e)`):
+		// the function literal bound to that parameter at the helper's call site
+		switch f := Resolve(cl.Call.Value).(type) {
+		case *ssa.Function:
+			if f.Parent() != nil {
+				cal = f
+			}
+		case *ssa.MakeClosure:
+			cal, _ = f.Fn.(*ssa.Function)
+		}
+		if cal != nil && (cal.Blocks == nil || cal.Parent() == nil) {
+			cal = nil
+		}
+	}
+	if cal == nil || (cal.Parent() == nil && !helperOK(cal)) || cal.Signature.Results().Len() != 1 {
 		return v, noop
 	}
 	if b, ok := cal.Signature.Results().At(0).Type().Underlying().(*types.Basic); !ok || b.Kind() != types.Bool {
@@ -882,15 +897,20 @@ func EdgeFactsDeep(root *ssa.Function, atoms ...*Atom) []EdgeFact {
 // literals. Pass-edge counts of the helper are added to res.
 func viaProducer(f *ssa.Function, effs []ssa.Instruction, pass []Lit, res *GateResult) bool {
 	for _, e := range effs {
-		ci, ok := e.(ssa.CallInstruction)
-		if !ok {
-			return false
-		}
 		var cands []ssa.Value
-		if ci.Common().IsInvoke() {
-			cands = append(cands, ci.Common().Value)
+		if ci, ok := e.(ssa.CallInstruction); ok {
+			if ci.Common().IsInvoke() {
+				cands = append(cands, ci.Common().Value)
+			}
+			cands = append(cands, ci.Common().Args...)
 		}
-		cands = append(cands, ci.Common().Args...)
+		// any other effect (a return, a store): every helper result of the function is a
+		// candidate — what matters is (1) and (2), not how the effect uses the value
+		Instrs(f, func(in ssa.Instruction) {
+			if cl, ok := in.(*ssa.Call); ok && cl.Call.StaticCallee() != nil && ssa.Instruction(cl) != e {
+				cands = append(cands, cl)
+			}
+		})
 		guarded := false
 		for _, v := range cands {
 			cl, isCall := Strip(v).(*ssa.Call)
